@@ -912,7 +912,7 @@ class Operations:
         degree = knotvector.degree
         oldspan = knotvector.span(node)
         oldmult = knotvector.mult(node)
-        one = node / node
+        one = 1 + 0 * node
         matrix = np.zeros((oldnpts + 1, oldnpts), dtype="object")
         for i in range(oldspan - degree + 1):
             matrix[i, i] = one
